@@ -18,13 +18,17 @@ from fractions import Fraction
 _U = {}
 UNITS = {1: "m", 2: "la", 3: "lc", 4: "km", 5: "mile", 6: "cm", 7: "mm", 8: "Mm", 9: "ym", 10: "Ym", 11: "lnd",
          12: "l_pl", 13: "Wh", 14: "J", 15: "dB", 16: "B",
-         17: "N", 18: "kg*m/s**2", 19: "degC", 20: "degF", 21: "K", 22: "tc", 23: "tf", 24: "dyn", 25: "g*cm/s**2"}
+         17: "N", 18: "kg*m/s**2", 19: "degC", 20: "degF", 21: "K", 22: "tc", 23: "tf", 24: "dyn", 25: "g*cm/s**2",
+         26: "A", 27: "statA", 28: "mA", 29: "T", 30: "G", 31: "kV", 32: "V", 33: "uC", 34: "C"}
 # exact scales (lengths in metres; mile = 1609.344 m by definition; decimal prefixes are the ideal powers of ten).
 # 12..16 are table values: their definition is the number the registry holds (filled in by setup).
 SCALE = {1: Fraction(1), 2: Fraction(1024), 3: Fraction(1, 8), 4: Fraction(1000), 5: Fraction(1609344, 1000),
          6: Fraction(1, 100), 7: Fraction(1, 1000), 8: Fraction(10**6), 9: Fraction(1, 10**24), 10: Fraction(10**24),
          11: Fraction(1024), 17: Fraction(1), 18: Fraction(1), 19: Fraction(1), 20: Fraction(5, 9), 21: Fraction(1),
-         22: Fraction(1), 23: Fraction(1, 2), 24: Fraction(1, 10**5), 25: Fraction(1, 10**5)}
+         22: Fraction(1), 23: Fraction(1, 2), 24: Fraction(1, 10**5), 25: Fraction(1, 10**5),
+         # E&M: 1 A = 2997924580 statA (c in cm/s over 10, exact), 1 T = 10^4 G
+         26: Fraction(1), 27: Fraction(1, 2997924580), 28: Fraction(1, 1000), 29: Fraction(1), 30: Fraction(1, 10**4),
+         31: Fraction(1000), 32: Fraction(1), 33: Fraction(1, 10**6), 34: Fraction(1)}
 # units with an offset: reading v stands for (v - OFFSET) * SCALE kelvin (degC, degF by their defining relations;
 # tc, tf are the dyadic model units of DType.UnitOff)
 OFFSET = {19: Fraction(-27315, 100), 20: Fraction(-45967, 100), 22: Fraction(-33, 2), 23: Fraction(-17, 4)}
